@@ -1,6 +1,7 @@
 package sim
 
 import (
+	"bytes"
 	"encoding/hex"
 	"encoding/json"
 	"fmt"
@@ -30,6 +31,7 @@ type DeployedProgram struct {
 }
 
 type EvmSt struct {
+	Bogus    bool // the bogus external result fault was injected
 	Programs []*DeployedProgram
 	Viol     []Violation
 	c10      *c10Model
@@ -440,6 +442,43 @@ func (e EvmEngine) judgeRun(r *Run, dp *DeployedProgram, gas uint64, run, ref *e
 	}
 	if d := Diff(run.Dump, ref.Dump); len(d) > 0 {
 		st.Evm.Viol = append(st.Evm.Viol, viol("all-or-nothing", site("state-differs-from-kept-calls"), "gas %d: kept set %s of %s; state differs from executing exactly the kept calls: %s (+%d more)", gas, run.K.Text(2), full.Text(2), d[0], len(d)-1))
+		return
+	}
+	// a call the EVM kept must have its Cosmos-side effect (the reference above runs the same code, so a
+	// precompile that reports success without doing anything would agree with itself): every kept
+	// bridgeCall issued one bridge-call id, every kept crossChain to the bridge one pool id, and the
+	// precompile accounts hold no value afterwards that they did not hold before
+	chain := st.Chains[0].Name
+	seq := func(d Dump, name string) uint64 {
+		if v, ok := d[chain][string(append([]byte{0x25}, []byte(name)...))]; ok && len(v) == 8 {
+			return be64(v)
+		}
+		return 0
+	}
+	keptBC, keptCC := uint64(0), uint64(0)
+	for _, nd := range dp.Spec.Nodes {
+		for _, a := range nd.Acts {
+			if a.K == "pre" && a.T == "crosschain" && run.K.Bit(a.Bit) == 1 {
+				switch a.M {
+				case "bridgeCall":
+					keptBC++
+				case "crossChain":
+					keptCC++
+				}
+			}
+		}
+	}
+	if got := seq(run.Dump, "bridgeCallId") - seq(pre, "bridgeCallId"); got < keptBC { // executeClaim may issue refund calls of its own: lower bound only
+		st.Evm.Viol = append(st.Evm.Viol, viol("all-or-nothing", "kept-call-without-effect/crosschain.bridgeCall", "gas %d: the EVM kept %d bridgeCall calls (kept set %s) but only %d outgoing bridge calls were issued", gas, keptBC, run.K.Text(2), got))
+	}
+	if got := seq(run.Dump, "lastTxPoolId") - seq(pre, "lastTxPoolId"); got < keptCC { // executeClaim of a deposit with a bridge target issues pool ids too: lower bound only
+		st.Evm.Viol = append(st.Evm.Viol, viol("all-or-nothing", "kept-call-without-effect/crosschain.crossChain", "gas %d: the EVM kept %d crossChain calls (kept set %s) but only %d pool transfers were issued", gas, keptCC, run.K.Text(2), got))
+	}
+	for _, pa := range []common.Address{common.HexToAddress("0x0000000000000000000000000000000000001004"), common.HexToAddress("0x0000000000000000000000000000000000001003")} {
+		key := string(append(append([]byte{0x02}, byte(len(pa.Bytes()))), append(pa.Bytes(), []byte("FX")...)...))
+		if !bytes.Equal(pre["bank"][key], run.Dump["bank"][key]) {
+			st.Evm.Viol = append(st.Evm.Viol, viol("all-or-nothing", "value-stranded-in-precompile-account", "gas %d: FX balance record of precompile account %s changed in a successful transaction (kept set %s)", gas, pa.Hex(), run.K.Text(2)))
+		}
 	}
 }
 
